@@ -360,14 +360,17 @@ class Harness:
 
     def install(self, queue_mod, env_mod, names):
         self.queue_mod, self.env_mod = queue_mod, env_mod
-        self.saved = (queue_mod.threading, queue_mod.Queue, queue_mod.time, env_mod.threading,
+        # (a module that does not use `time` any more simply keeps whatever clock it reads)
+        self.saved = (queue_mod.threading, queue_mod.Queue, getattr(queue_mod, 'time', _time),
+                      env_mod.threading,
                       queue_mod.QueueScheduling.WorkerThread.start,
                       queue_mod.QueueScheduling.WorkerThread.join,
                       queue_mod.QueueScheduling.WorkerThread.run)
         shim = _ThreadingShim(self.ctl_ref, self.saved[0])
         queue_mod.threading = shim
         env_mod.threading = _ThreadingShim(self.ctl_ref, self.saved[3])
-        queue_mod.time = _TimeShim(self.ctl_ref, self.saved[2])
+        if hasattr(queue_mod, 'time'):
+            queue_mod.time = _TimeShim(self.ctl_ref, self.saved[2])
         harness = self
 
         def make_queue(maxsize=0):
